@@ -594,6 +594,9 @@ func postDominatedJoin(d, b *ssa.BasicBlock) bool {
 func include(c *core.Ctx, parts ...string) {
 	expl, assume := c.Explanation, c.Assumptions
 	for _, id := range parts {
+		if !c.Once("property:" + id) {
+			continue
+		}
 		f := Registry[id]
 		if f == nil {
 			c.Undecided("component property %s is not registered", id)
